@@ -64,7 +64,9 @@ def lib_written_doc(rng, size):
             tl.append(gen.build_tree(dendropy, spec, ns, is_rooted=rng.choice([None, True, False])))
         ds.add_tree_list(tl)
     if what in ("chars", "both"):
-        data_type = rng.choice(["dna", "standard", "protein"])
+        # not "standard": the NEXUS writer emits the SYMBOLS list in set order, which depends on PYTHONHASHSEED -
+        # a document that differs from interpreter to interpreter cannot be part of a replayable plan
+        data_type = rng.choice(["dna", "dna", "protein"])
         nchar = rng.randint(1, 10)
         if data_type == "dna":
             rows = gen.sequences(rng, labs, nchar, gen.DNA_SYMBOLS)
